@@ -35,7 +35,9 @@ func init() {
 	core.Register(&core.Part{
 		Name: "C05.elections", Prop: "C05", Race: true,
 		Cases: func(tier string) int { return tierN(tier, 60, 2500) },
-		Run:   func(tier string, seed uint64, idx int) core.Result { return runElections("C05", "C05.elections", tier, seed, idx) },
+		Run: func(tier string, seed uint64, idx int) core.Result {
+			return runElections("C05", "C05.elections", tier, seed, idx)
+		},
 		Rule: "the real coordinator ShardController (status resource included) over a harness-owned metadata store and coordination-RPC layer, 5 real storage nodes (RF 3, 2 spares); seeded schedules of 10..18 steps: client writes with a stalled follower (heads differ), true and false leader-failure notifications, node swaps, process crashes/restarts of nodes (also right after a node answered NewTerm, i.e. between NewTerm and BecomeLeader), coordinator deaths at chosen points (before/after the k-th metadata write, at the send or after the execution of the k-th NewTerm/BecomeLeader/AddFollower) followed by a restart from the stored metadata, requests and responses lost or delayed per message (fault level 0..100), ghosts = exact re-deliveries of earlier requests; " +
 			"online oracle, evaluated under the harness lock in record order: (durable-first) every term carried by a request is <= the term in the metadata store at send time; (no reuse) an incarnation never sends NewTerm with a term <= one sent by an earlier incarnation; stored terms never decrease; (one leader per term) BecomeLeader of a term goes to one node only, at most one node ever answers BecomeLeader OK or reports LEADER for a term, stored leader of a term is unique; (majority, best log) at BecomeLeader send: the target and every follower-map entry are members of the stored ensemble that answered NewTerm of that term to this incarnation, with exactly the heads they answered, these are a majority of the stored ensemble, and the target's (term,offset) head is >= every follower-map head; (node terms) a node never answers OK to a NewTerm below one it answered before, the term it reports never drops below one it acknowledged earlier (restarts and crash images included), and the flushed database image at a NewTerm answer already holds that term; a node answers BecomeLeader OK only in a term whose NewTerm it answered; " +
 			"non-trivial = >= 3 BecomeLeader decisions checked and >= 1 coordinator death or swap; distinct = (fault level, record trace)",
@@ -72,16 +74,39 @@ type mon struct {
 	restartAfterNT  string // node to restart right after its next NewTerm answer
 	restartKind     int
 	restartsAfterNT int
+	silent          bool // monitors off: the engine only uses the bookkeeping (C01/C02 runs)
+	// root-cause bookkeeping for C01/C02: highest commit offset any leader reported, and the first election that
+	// installed a leader whose log ends below it
+	maxCommit      int64
+	belowCommit    string
+	belowCommitSwp bool
+	swapSeen       bool
 }
 
 func newMon(prop string, r *core.R, h *ctl.Harness) *mon {
 	return &mon{prop: prop, r: r, h: h, maxTermByInc: map[int]int64{}, blTarget: map[int64]string{}, leaderOK: map[int64]string{},
-		statusLeader: map[int64]string{}, storedLeader: map[int64]string{}, delivered: map[int]map[int64]map[string]*proto.EntryId{},
+		maxCommit: -1, statusLeader: map[int64]string{}, storedLeader: map[int64]string{}, delivered: map[int]map[int64]map[string]*proto.EntryId{},
 		newTermOK: map[string]map[int64]bool{}, maxAcked: map[string]int64{}, epoch: map[string]int64{}, lastStoredTerm: -1}
 }
 
 func (m *mon) viol(sig, detail string) {
+	if m.silent {
+		return
+	}
 	m.r.Violate(m.prop+"/"+sig, detail, map[string]any{"trace": m.h.Tail(60)})
+}
+
+// rootCause labels a client-level violation with the election-level event that explains it, if there was one.
+func (m *mon) rootCause() (label, detail string) {
+	m.mu.Lock()
+	defer m.mu.Unlock()
+	if m.belowCommit == "" {
+		return "", ""
+	}
+	if m.belowCommitSwp {
+		return "/after-a-leader-was-installed-below-the-commit-offset-during-or-after-a-node-swap", m.belowCommit
+	}
+	return "/after-a-leader-was-installed-below-the-commit-offset", m.belowCommit
 }
 
 func cmpHead(a, b *proto.EntryId) int {
@@ -115,6 +140,9 @@ func (m *mon) observe(h *ctl.Harness, r ctl.Rec, payload any) {
 	m.mu.Lock()
 	defer m.mu.Unlock()
 	bad := func(sig, detail string) {
+		if m.silent {
+			return
+		}
 		m.r.Violate(m.prop+"/"+sig, detail+" @ "+r.String(), nil)
 	}
 	switch r.Phase {
@@ -169,6 +197,11 @@ func (m *mon) observe(h *ctl.Harness, r ctl.Rec, payload any) {
 				bad("leader-not-in-ensemble", fmt.Sprintf("leader %s, ensemble %v, removed %v", r.Node, ctl.Names(d.Ensemble), ctl.Names(d.RemovedNodes)))
 			}
 			lh, ok := del[r.Node]
+			if ok && lh.Offset < m.maxCommit && m.belowCommit == "" {
+				m.belowCommit = fmt.Sprintf("BecomeLeader(%d) to %s whose log ends at (%d,%d) while a leader had reported commit offset %d; ensemble %v removed %v answers %v",
+					r.Term, r.Node, lh.Term, lh.Offset, m.maxCommit, ctl.Names(d.Ensemble), ctl.Names(d.RemovedNodes), ctl.SortedKeys(del))
+				m.belowCommitSwp = m.swapSeen
+			}
 			if !ok {
 				bad("leader-was-not-fenced", fmt.Sprintf("leader %s did not answer NewTerm(%d) to this incarnation", r.Node, r.Term))
 			}
@@ -265,11 +298,14 @@ func (m *mon) poll() {
 		}
 		m.r.Count("status_polls", 1)
 		m.mu.Lock()
-		if had && m.epoch[n.Name] == ep && st.Term < ackedBefore {
+		if had && m.epoch[n.Name] == ep && st.Term < ackedBefore && !m.silent {
 			m.r.Violate(m.prop+"/node-term-went-backwards", fmt.Sprintf("%s reports term %d after having answered NewTerm(%d)", n.Name, st.Term, ackedBefore), nil)
 		}
+		if st.Status == proto.ServingStatus_LEADER && st.CommitOffset > m.maxCommit {
+			m.maxCommit = st.CommitOffset
+		}
 		if st.Status == proto.ServingStatus_LEADER {
-			if prev, ok := m.statusLeader[st.Term]; ok && prev != n.Name {
+			if prev, ok := m.statusLeader[st.Term]; ok && prev != n.Name && !m.silent {
 				m.r.Violate(m.prop+"/two-nodes-report-leader-in-one-term", fmt.Sprintf("%s and %s both report LEADER in term %d", prev, n.Name, st.Term), nil)
 			}
 			m.statusLeader[st.Term] = n.Name
@@ -285,7 +321,7 @@ func (m *mon) afterExec(kind, node string, req any, res any, err error) {
 	}
 	term := req.(*proto.NewTermRequest).Term
 	n := m.h.C.Node(node)
-	if (term+int64(len(node)))%2 == 0 || true {
+	if !m.silent {
 		if ft, ok := n.FlushedTerm(); ok {
 			m.r.Count("flushed_term_probes", 1)
 			if ft < term {
@@ -313,20 +349,23 @@ func (m *mon) afterExec(kind, node string, req any, res any, err error) {
 }
 
 type sched struct {
-	prop    string
-	r       *core.R
-	rng     *rand.Rand
-	c       *rc.Cluster
-	h       *ctl.Harness
-	m       *mon
-	inc     *ctl.Incarnation
-	swapBusy atomic.Bool
-	swapGen  atomic.Int64
-	over     atomic.Bool
+	prop        string
+	r           *core.R
+	rng         *rand.Rand
+	c           *rc.Cluster
+	h           *ctl.Harness
+	m           *mon
+	inc         *ctl.Incarnation
+	swapBusy    atomic.Bool
+	swapGen     atomic.Int64
+	over        atomic.Bool
+	level       int
+	reported    map[string]bool
+	ownWrites   bool
 	removedEver map[string]bool
-	writeSeq int64
-	acked    map[string]string
-	ackMu    sync.Mutex
+	writeSeq    int64
+	acked       map[string]string
+	ackMu       sync.Mutex
 }
 
 func (s *sched) waitSteady(d time.Duration) bool {
@@ -338,6 +377,32 @@ func (s *sched) waitSteady(d time.Duration) bool {
 		time.Sleep(2 * time.Millisecond)
 	}
 	return false
+}
+
+// healthCheck plays the coordinator's node health checker once: a recorded leader that does not lead is reported.
+func (s *sched) healthCheck() {
+	if s.inc.SC.Status() != model.ShardStatusSteadyState {
+		return
+	}
+	l := s.inc.SC.Leader()
+	if l == nil {
+		return
+	}
+	st, err := s.c.Node(l.GetIdentifier()).GetStatus()
+	if err != nil || st.Status != proto.ServingStatus_LEADER {
+		key := fmt.Sprintf("%d/%s/%d", s.inc.ID, l.GetIdentifier(), s.inc.SC.Term())
+		if s.reported == nil {
+			s.reported = map[string]bool{}
+		}
+		if s.reported[key] {
+			return
+		}
+		s.reported[key] = true
+		s.h.Note("health check: recorded leader %s does not lead", l.GetIdentifier())
+		sc, srv := s.inc.SC, *l
+		go sc.NodeBecameUnavailable(srv) // the controller's queue may be busy (e.g. inside a swap)
+		time.Sleep(50 * time.Millisecond)
+	}
 }
 
 func (s *sched) leaderName() string {
@@ -421,6 +486,9 @@ func (s *sched) swap() bool {
 	s.swapBusy.Store(true)
 	s.removedEver[from.GetIdentifier()] = true
 	s.r.Count("swaps_started", 1)
+	s.m.mu.Lock()
+	s.m.swapSeen = true
+	s.m.mu.Unlock()
 	s.h.Note("swap %s -> %s", from.GetIdentifier(), to.GetIdentifier())
 	inc := s.inc
 	gen := s.swapGen.Add(1)
@@ -448,29 +516,25 @@ func (s *sched) waitSwap(d time.Duration) {
 	}
 }
 
-func runElections(prop, part, tier string, seed uint64, idx int) core.Result {
-	r := core.NewR(part, idx)
-	rng := core.CaseSeed(seed, part, idx)
+// newSched builds the cluster (5 nodes, RF 3), the harness, the monitors and the status poller.
+func newSched(prop string, r *core.R, rng *rand.Rand, silentMon bool) (*sched, func(), error) {
 	dir, err := os.MkdirTemp("", "coord-")
 	if err != nil {
-		r.Inconclusive(err.Error())
-		return r.Done()
+		return nil, nil, err
 	}
-	defer os.RemoveAll(dir)
 	c, err := rc.New(dir, 5, 1<<16, true)
 	if err != nil {
-		r.Inconclusive(err.Error())
-		return r.Done()
+		os.RemoveAll(dir)
+		return nil, nil, err
 	}
-	defer c.Close()
 	h := ctl.New(c, 3, rng.Uint64())
 	m := newMon(prop, r, h)
+	m.silent = silentMon
 	h.Observe(m.observe)
 	h.AfterExec = m.afterExec
-	level := []int{0, 20, 50, 100}[rng.IntN(4)]
-	h.SetFaultLevel(level)
 	s := &sched{prop: prop, r: r, rng: rng, c: c, h: h, m: m, removedEver: map[string]bool{}, acked: map[string]string{}}
-
+	s.level = []int{0, 20, 50, 100}[rng.IntN(4)]
+	h.SetFaultLevel(s.level)
 	stopPoll := make(chan struct{})
 	var pollWG sync.WaitGroup
 	pollWG.Add(1)
@@ -486,164 +550,205 @@ func runElections(prop, part, tier string, seed uint64, idx int) core.Result {
 			time.Sleep(time.Millisecond)
 		}
 	}()
-	defer func() {
+	s.inc = h.Start()
+	cleanup := func() {
+		s.over.Store(true)
+		h.CloseAll()
 		close(stopPoll)
 		pollWG.Wait()
-	}()
+		c.Close()
+		os.RemoveAll(dir)
+	}
+	return s, cleanup, nil
+}
 
-	s.inc = h.Start()
-	defer h.CloseAll()
+// step performs one random nemesis/coordination step.
+func (s *sched) step(ghosts bool) {
+	rng, c, h, r, m := s.rng, s.c, s.h, s.r, s.m
+	switch p := rng.IntN(100); {
+	case p < 18:
+		// writes, possibly with one follower not receiving them: heads differ at the next election
+		if ln := s.leaderName(); ln != "" && rng.IntN(2) == 0 {
+			d := h.Durable()
+			f := d.Ensemble[rng.IntN(len(d.Ensemble))].GetIdentifier()
+			if f != ln {
+				c.Link(ln, f).SetStalled(true)
+				h.Note("stall %s>%s", ln, f)
+			}
+		}
+		if s.ownWrites {
+			s.write(1 + rng.IntN(8))
+		} else {
+			time.Sleep(time.Duration(rng.IntN(60)) * time.Millisecond)
+		}
+	case p < 30:
+		// the leader really fails
+		if ln := s.leaderName(); ln != "" {
+			if rng.IntN(2) == 0 {
+				_ = c.Node(ln).Restart()
+				h.Note("leader %s restarted", ln)
+			} else {
+				_ = c.Node(ln).Crash()
+				h.Note("leader %s crashed", ln)
+			}
+			r.Count("leader_failures", 1)
+			s.inc.SC.NodeBecameUnavailable(ctl.Server(ln))
+			s.waitSteady(time.Duration(200+rng.IntN(800)) * time.Millisecond)
+		}
+	case p < 40:
+		// a false alarm: the leader is declared failed while it keeps serving
+		if ln := s.leaderName(); ln != "" {
+			h.Note("false failure notification for %s", ln)
+			r.Count("false_failures", 1)
+			s.inc.SC.NodeBecameUnavailable(ctl.Server(ln))
+			if s.ownWrites && rng.IntN(2) == 0 {
+				s.write(1 + rng.IntN(4))
+			}
+			s.waitSteady(time.Duration(100+rng.IntN(500)) * time.Millisecond)
+		}
+	case p < 48:
+		// some node restarts or crashes
+		n := c.Nodes[rng.IntN(len(c.Nodes))]
+		if rng.IntN(2) == 0 {
+			_ = n.Restart()
+			h.Note("node %s restarted", n.Name)
+		} else {
+			_ = n.Crash()
+			h.Note("node %s crashed", n.Name)
+		}
+		r.Count("node_restarts", 1)
+	case p < 60:
+		if s.swap() {
+			s.waitSwap(time.Duration(rng.IntN(1500)) * time.Millisecond)
+		}
+	case p < 76:
+		// the coordinator dies at a chosen point of an election and is restarted from the stored metadata
+		cps := []ctl.CrashPoint{
+			{Phase: "store-before"}, {Phase: "store-after"},
+			{Phase: "send", Kind: "NewTerm"}, {Phase: "exec", Kind: "NewTerm"},
+			{Phase: "send", Kind: "BecomeLeader"}, {Phase: "exec", Kind: "BecomeLeader"},
+			{Phase: "send", Kind: "AddFollower"}, {Phase: "exec", Kind: "DeleteShard"},
+		}
+		cp := cps[rng.IntN(len(cps))]
+		cp.Count = 1 + rng.IntN(3)
+		h.ArmCrash(cp)
+		h.Note("armed coordinator death at %s %s #%d", cp.Phase, cp.Kind, cp.Count)
+		if rng.IntN(3) == 0 {
+			if !s.swap() {
+				s.triggerElection()
+			}
+		} else {
+			s.triggerElection()
+		}
+		select {
+		case <-h.CrashFired:
+			r.Count("coordinator_deaths_at_"+cp.Phase, 1)
+		case <-time.After(1500 * time.Millisecond):
+			r.Count("coordinator_deaths_plain", 1)
+		}
+		r.Count("coordinator_deaths", 1)
+		time.Sleep(time.Duration(rng.IntN(20)) * time.Millisecond)
+		s.restartCoordinator()
+		s.waitSteady(time.Duration(200+rng.IntN(1500)) * time.Millisecond)
+	case p < 86:
+		if !ghosts {
+			time.Sleep(time.Duration(rng.IntN(100)) * time.Millisecond)
+			return
+		}
+		// a ghost: an earlier request arrives (again) at its node
+		m.mu.Lock()
+		var cand []sent
+		for _, x := range m.sent {
+			// a node that was removed once may have been deleted: its acknowledged terms are gone with it, so only
+			// DeleteShard itself is re-delivered to such nodes (a late duplicate must be refused by a node that has
+			// been fenced in a newer term since, and must not disturb it)
+			if !s.removedEver[x.node] || x.kind == "DeleteShard" {
+				cand = append(cand, x)
+			}
+		}
+		m.mu.Unlock()
+		if len(cand) > 0 {
+			// prefer recent ones half of the time
+			x := cand[rng.IntN(len(cand))]
+			if rng.IntN(2) == 0 && len(cand) > 6 {
+				x = cand[len(cand)-1-rng.IntN(6)]
+			}
+			err := h.Ghost(x.kind, x.node, x.req)
+			r.Count("ghosts", 1)
+			if err == nil {
+				r.Count("ghosts_accepted", 1)
+			}
+		}
+	case p < 93:
+		// a node restarts between its NewTerm answer and BecomeLeader
+		d := h.Durable()
+		if len(d.Ensemble) > 0 {
+			m.mu.Lock()
+			m.restartAfterNT = d.Ensemble[rng.IntN(len(d.Ensemble))].GetIdentifier()
+			m.restartKind = rng.IntN(2)
+			m.mu.Unlock()
+			s.triggerElection()
+			s.waitSteady(time.Duration(300+rng.IntN(1000)) * time.Millisecond)
+			m.mu.Lock()
+			m.restartAfterNT = ""
+			m.mu.Unlock()
+		}
+	default:
+		s.level = []int{0, 20, 50, 100}[rng.IntN(4)]
+		h.SetFaultLevel(s.level)
+		s.unstallAll()
+		h.Note("fault level %d, links unstalled", s.level)
+	}
+}
+
+func (s *sched) unstallAll() {
+	for _, a := range s.c.Nodes {
+		for _, b := range s.c.Nodes {
+			s.c.Link(a.Name, b.Name).SetStalled(false)
+		}
+	}
+}
+
+// settle stops the faults and waits (bounded) for a leader; it restarts the coordinator once if none appears.
+func (s *sched) settle() bool {
+	s.h.SetFaultLevel(0)
+	s.h.DisarmCrash()
+	s.unstallAll()
+	s.waitSwap(3 * time.Second)
+	s.healthCheck()
+	if s.waitSteady(3 * time.Second) {
+		s.healthCheck()
+		if s.waitSteady(3 * time.Second) {
+			return true
+		}
+	}
+	s.restartCoordinator()
+	return s.waitSteady(10 * time.Second)
+}
+
+func runElections(prop, part, tier string, seed uint64, idx int) core.Result {
+	r := core.NewR(part, idx)
+	rng := core.CaseSeed(seed, part, idx)
+	s, cleanup, err := newSched(prop, r, rng, false)
+	if err != nil {
+		r.Inconclusive(err.Error())
+		return r.Done()
+	}
+	defer cleanup()
+	s.ownWrites = true
+	h, m := s.h, s.m
 	s.waitSteady(5 * time.Second)
 
 	steps := 10 + rng.IntN(9)
 	for i := 0; i < steps && r.Violations() == 0; i++ {
-		switch p := rng.IntN(100); {
-		case p < 18:
-			// writes, possibly with one follower not receiving them: heads differ at the next election
-			if ln := s.leaderName(); ln != "" && rng.IntN(2) == 0 {
-				d := h.Durable()
-				f := d.Ensemble[rng.IntN(len(d.Ensemble))].GetIdentifier()
-				if f != ln {
-					c.Link(ln, f).SetStalled(true)
-					h.Note("stall %s>%s", ln, f)
-				}
-			}
-			s.write(1 + rng.IntN(8))
-		case p < 30:
-			// the leader really fails
-			if ln := s.leaderName(); ln != "" {
-				if rng.IntN(2) == 0 {
-					_ = c.Node(ln).Restart()
-					h.Note("leader %s restarted", ln)
-				} else {
-					_ = c.Node(ln).Crash()
-					h.Note("leader %s crashed", ln)
-				}
-				r.Count("leader_failures", 1)
-				s.inc.SC.NodeBecameUnavailable(ctl.Server(ln))
-				s.waitSteady(time.Duration(200+rng.IntN(800)) * time.Millisecond)
-			}
-		case p < 40:
-			// a false alarm: the leader is declared failed while it keeps serving
-			if ln := s.leaderName(); ln != "" {
-				h.Note("false failure notification for %s", ln)
-				r.Count("false_failures", 1)
-				s.inc.SC.NodeBecameUnavailable(ctl.Server(ln))
-				if rng.IntN(2) == 0 {
-					s.write(1 + rng.IntN(4))
-				}
-				s.waitSteady(time.Duration(100+rng.IntN(500)) * time.Millisecond)
-			}
-		case p < 48:
-			// some node restarts or crashes
-			n := c.Nodes[rng.IntN(len(c.Nodes))]
-			if rng.IntN(2) == 0 {
-				_ = n.Restart()
-				h.Note("node %s restarted", n.Name)
-			} else {
-				_ = n.Crash()
-				h.Note("node %s crashed", n.Name)
-			}
-			r.Count("node_restarts", 1)
-		case p < 60:
-			if s.swap() {
-				s.waitSwap(time.Duration(rng.IntN(1500)) * time.Millisecond)
-			}
-		case p < 76:
-			// the coordinator dies at a chosen point of an election and is restarted from the stored metadata
-			cps := []ctl.CrashPoint{
-				{Phase: "store-before"}, {Phase: "store-after"},
-				{Phase: "send", Kind: "NewTerm"}, {Phase: "exec", Kind: "NewTerm"},
-				{Phase: "send", Kind: "BecomeLeader"}, {Phase: "exec", Kind: "BecomeLeader"},
-				{Phase: "send", Kind: "AddFollower"}, {Phase: "exec", Kind: "DeleteShard"},
-			}
-			cp := cps[rng.IntN(len(cps))]
-			cp.Count = 1 + rng.IntN(3)
-			h.ArmCrash(cp)
-			h.Note("armed coordinator death at %s %s #%d", cp.Phase, cp.Kind, cp.Count)
-			if rng.IntN(3) == 0 {
-				if !s.swap() {
-					s.triggerElection()
-				}
-			} else {
-				s.triggerElection()
-			}
-			select {
-			case <-h.CrashFired:
-				r.Count("coordinator_deaths_at_"+cp.Phase, 1)
-			case <-time.After(1500 * time.Millisecond):
-				r.Count("coordinator_deaths_plain", 1)
-			}
-			r.Count("coordinator_deaths", 1)
-			time.Sleep(time.Duration(rng.IntN(20)) * time.Millisecond)
-			s.restartCoordinator()
-			s.waitSteady(time.Duration(200+rng.IntN(1500)) * time.Millisecond)
-		case p < 86:
-			// a ghost: an earlier request arrives (again) at its node
-			m.mu.Lock()
-			var cand []sent
-			for _, x := range m.sent {
-				if !s.removedEver[x.node] && x.kind != "DeleteShard" {
-					cand = append(cand, x)
-				}
-			}
-			m.mu.Unlock()
-			if len(cand) > 0 {
-				// prefer recent ones half of the time
-				x := cand[rng.IntN(len(cand))]
-				if rng.IntN(2) == 0 && len(cand) > 6 {
-					x = cand[len(cand)-1-rng.IntN(6)]
-				}
-				err := h.Ghost(x.kind, x.node, x.req)
-				r.Count("ghosts", 1)
-				if err == nil {
-					r.Count("ghosts_accepted", 1)
-				}
-			}
-		case p < 93:
-			// a node restarts between its NewTerm answer and BecomeLeader
-			d := h.Durable()
-			if len(d.Ensemble) > 0 {
-				m.mu.Lock()
-				m.restartAfterNT = d.Ensemble[rng.IntN(len(d.Ensemble))].GetIdentifier()
-				m.restartKind = rng.IntN(2)
-				m.mu.Unlock()
-				s.triggerElection()
-				s.waitSteady(time.Duration(300+rng.IntN(1000)) * time.Millisecond)
-				m.mu.Lock()
-				m.restartAfterNT = ""
-				m.mu.Unlock()
-			}
-		default:
-			level = []int{0, 20, 50, 100}[rng.IntN(4)]
-			h.SetFaultLevel(level)
-			for _, a := range c.Nodes {
-				for _, b := range c.Nodes {
-					c.Link(a.Name, b.Name).SetStalled(false)
-				}
-			}
-			h.Note("fault level %d, links unstalled", level)
-		}
+		s.step(true)
 	}
 	// calm down and let the shard settle: bounded, and not part of the verdict
-	h.SetFaultLevel(0)
-	h.DisarmCrash()
-	for _, a := range c.Nodes {
-		for _, b := range c.Nodes {
-			c.Link(a.Name, b.Name).SetStalled(false)
-		}
-	}
 	if r.Violations() == 0 {
-		s.waitSwap(3 * time.Second)
-		if !s.waitSteady(3 * time.Second) {
-			s.restartCoordinator()
-			if s.waitSteady(10 * time.Second) {
-				r.Count("final_steady", 1)
-			} else {
-				r.Count("final_not_steady", 1)
-			}
-		} else {
+		if s.settle() {
 			r.Count("final_steady", 1)
+		} else {
+			r.Count("final_not_steady", 1)
 		}
 		m.poll()
 	}
@@ -656,7 +761,7 @@ func runElections(prop, part, tier string, seed uint64, idx int) core.Result {
 		}
 		tr = append(tr, fmt.Sprintf("%s %s %s %d %v", x.Phase, x.Kind, x.Node, x.Term, x.OK))
 	}
-	r.FP(level, strings.Join(tr, ";"))
+	r.FP(s.level, strings.Join(tr, ";"))
 	m.mu.Lock()
 	terms := len(m.blTarget)
 	m.mu.Unlock()
@@ -671,7 +776,7 @@ func runElections(prop, part, tier string, seed uint64, idx int) core.Result {
 				sample = append(sample, x.String())
 			}
 		}
-		r.Sample(map[string]any{"fault_level": level, "records": len(recs), "first_records": sample})
+		r.Sample(map[string]any{"fault_level": s.level, "records": len(recs), "first_records": sample})
 	}
 	if r.Violations() > 0 {
 		// attach the full trace to the evidence of the first violation
